@@ -44,6 +44,9 @@ inductive HBeh
   | returns (catches : Bool)         -- runs to its end (after completing a catch () / safe apply or not)
   | raises (catchesFirst : Bool)     -- raises an ordinary error of its own, outside any catch of its own
   | expires (catchesFirst : Bool)    -- runs out of evaluation cost, outside any catch of its own
+  | noHandler (traceApplies : Bool)  -- the master has no error_handler (): the apply fails and mudlib_error_handler () prints the
+                                     -- driver's own trace; with ArgumentsInTrace / LocalVariablesInTrace dump_trace turns every
+                                     -- object value of a frame into text through safe_apply_master_ob ("object_name")
   deriving Repr, DecidableEq
 
 /-- what it does on the way (integration with C05's cd4f16a: `if (current_error_context == mudlib_error_handler_context)`
@@ -82,8 +85,22 @@ def stepEv (restore : Bool) (ctxIsCatch : Bool) (s : EH) : HEv → Sum EH EH
     else if s.full then .inr (nestedHandler restore ctxIsCatch { s with full := true, cost := false })
     else .inl { s with full := false, cost := false }
 
-/-- how the handler ends -/
-def finish (restore : Bool) (ctxIsCatch : Bool) (limFull limCost : Bool) (s : EH) : HBeh → EH
+/-- dump_trace (g_trace_flag) with object values in the traced frames: svalue_to_string applies master::object_name through
+    safe_apply_master_ob (not when ES_STACK_FULL is set); the safe apply completes: pop_context → clear_error_state -/
+def EH.afterTrace (s : EH) (applies : Bool) : EH :=
+  if applies && !s.full then { s with full := false, cost := false } else s
+
+/-- how the handler ends.  `lateRestore`: `set_error_state (limit_state)` is made by error_handler () after
+    mudlib_error_handler () has returned, i.e. after the fallback trace (the code as it is); `false`: right after the apply of
+    the master's handler, before the trace (the order of seeded change C04-5) -/
+def finish (restore : Bool) (lateRestore : Bool) (ctxIsCatch : Bool) (limFull limCost : Bool) (s : EH) : HBeh → EH
+  | .noHandler t =>
+    if lateRestore then
+      let s := s.afterTrace t
+      { s with inMudlib := false, inError := false, full := s.full || limFull, cost := s.cost || limCost }
+    else
+      let s := ({ s with full := s.full || limFull, cost := s.cost || limCost } : EH).afterTrace t
+      { s with inMudlib := false, inError := false }
   | .returns c =>
     let s := s.afterCatch c
     { s with inMudlib := false, inError := false, full := s.full || limFull, cost := s.cost || limCost }
@@ -92,24 +109,27 @@ def finish (restore : Bool) (ctxIsCatch : Bool) (limFull limCost : Bool) (s : EH
     -- eval_instruction: set_error_state (ES_MAX_EVAL_COST) before error ()
     nestedHandler restore ctxIsCatch { (s.afterCatch c) with cost := true }
 
-def runHandler (restore : Bool) (ctxIsCatch : Bool) (limFull limCost : Bool) : List HEv → HBeh → EH → EH
-  | [], beh, s => finish restore ctxIsCatch limFull limCost s beh
+def runHandler (restore : Bool) (lateRestore : Bool) (ctxIsCatch : Bool) (limFull limCost : Bool) : List HEv → HBeh → EH → EH
+  | [], beh, s => finish restore lateRestore ctxIsCatch limFull limCost s beh
   | e :: es, beh, s =>
     match stepEv restore ctxIsCatch s e with
-    | .inl s1 => runHandler restore ctxIsCatch limFull limCost es beh s1
+    | .inl s1 => runHandler restore lateRestore ctxIsCatch limFull limCost es beh s1
     | .inr r => r
 
 /-- error_handler () entered from an evaluation (no handler running); the result is the state at the longjmp -/
-def errorHandlerW (restore : Bool) (ctxIsCatch : Bool) (evs : List HEv) (beh : HBeh) (s : EH) : EH :=
+def errorHandlerW (restore : Bool) (lateRestore : Bool) (ctxIsCatch : Bool) (evs : List HEv) (beh : HBeh) (s : EH) : EH :=
   let s1 := { s with savedFull := s.full, savedCost := s.cost, inMudlib := true }
   let s2 := if ctxIsCatch then s1 else { s1 with inError := false }
-  runHandler restore ctxIsCatch s.full s.cost evs beh s2
+  runHandler restore lateRestore ctxIsCatch s.full s.cost evs beh s2
 
 /-- the code as it is now -/
-def errorHandler : Bool → List HEv → HBeh → EH → EH := errorHandlerW true
+def errorHandler : Bool → List HEv → HBeh → EH → EH := errorHandlerW true true
 
 /-- the code before fix d13165e -/
-def errorHandlerOld : Bool → List HEv → HBeh → EH → EH := errorHandlerW false
+def errorHandlerOld : Bool → List HEv → HBeh → EH → EH := errorHandlerW false true
+
+/-- the statement order of seeded change C04-5: the bits are put back before the fallback trace -/
+def errorHandlerEarlyRestore : Bool → List HEv → HBeh → EH → EH := errorHandlerW true false
 
 /-- while the handler runs: the flag is set, in_error is clear, and handler_limit_state holds the bits of the raise -/
 def Running (limFull limCost : Bool) (s : EH) : Prop :=
@@ -127,7 +147,7 @@ theorem nested_landed (ctx lf lc : Bool) (s : EH) (h : Running lf lc s) : Landed
   cases ctx <;> cases a <;> cases b <;> cases e <;> cases f <;> simp [nestedHandler, Landed]
 
 theorem finish_landed (ctx lf lc : Bool) (s : EH) (beh : HBeh) (h : Running lf lc s) :
-    Landed lf lc (finish true ctx lf lc s beh) := by
+    Landed lf lc (finish true true ctx lf lc s beh) := by
   have hk : ∀ (c : Bool), Running lf lc (s.afterCatch c) := by
     intro c; cases c <;> simpa [EH.afterCatch, Running] using h
   cases beh with
@@ -135,6 +155,9 @@ theorem finish_landed (ctx lf lc : Bool) (s : EH) (beh : HBeh) (h : Running lf l
     have := hk c
     obtain ⟨_, _, _, _⟩ := this
     cases lf <;> cases lc <;> simp [finish, Landed]
+  | noHandler t =>
+    obtain ⟨a, b, c, d, e, f⟩ := s
+    cases lf <;> cases lc <;> cases t <;> cases a <;> cases b <;> simp [finish, Landed, EH.afterTrace]
   | raises c => exact nested_landed ctx lf lc _ (hk c)
   | expires c =>
     apply nested_landed
@@ -178,7 +201,7 @@ theorem step_inr (ctx lf lc : Bool) (s r : EH) (e : HEv) (h : Running lf lc s)
       · cases he
 
 theorem run_landed (ctx lf lc : Bool) (beh : HBeh) : ∀ (evs : List HEv) (s : EH), Running lf lc s →
-    Landed lf lc (runHandler true ctx lf lc evs beh s) := by
+    Landed lf lc (runHandler true true ctx lf lc evs beh s) := by
   intro evs
   induction evs with
   | nil => intro s h; exact finish_landed ctx lf lc s beh h
@@ -189,7 +212,8 @@ theorem run_landed (ctx lf lc : Bool) (beh : HBeh) : ∀ (evs : List HEv) (s : E
     · rename_i s1 heq; exact ih s1 (step_inl ctx lf lc s s1 e h heq)
     · rename_i r heq; exact step_inr ctx lf lc s r e h heq
 
-/-- **handler_keeps_limit_state**: whatever the master's error handler does - any sequence of catches completing and of
+/-- **handler_keeps_limit_state**: whatever the master's error handler does - or when there is none and the driver prints
+    its own trace, with or without object values in the traced frames - any sequence of catches completing and of
     errors (ordinary, or the budget running out) inside catches of its own, then a return, an error of its own or the
     budget running out, before or after a catch - and whichever kind of context receives the error: the limit bits of
     `error_state` at the raise are set when the longjmp to that context is made (what `raise` in Model.lean assumes),
@@ -215,6 +239,16 @@ theorem handler_keeps_limit_state_each (ctx : Bool) (beh : HBeh) (full cost sf s
 /-- an evaluation-cost error has just been raised, no handler is running -/
 def costRaised : EH :=
   { full := false, cost := true, inMudlib := false, inError := false, savedFull := false, savedCost := false }
+
+/-- seeded change C04-5 (restore moved into mudlib_error_handler (), before the fallback trace): without a master
+    error_handler () and with an object value in a traced frame, the evaluation-cost bit is gone when do_catch () / safe_apply ()
+    look - on both paths; with the code as it is the bit is there -/
+theorem handler_early_restore_loses_state :
+    (errorHandlerEarlyRestore true [] (.noHandler true) costRaised).cost = false ∧
+    (errorHandlerEarlyRestore false [] (.noHandler true) costRaised).cost = false ∧
+    (errorHandler true [] (.noHandler true) costRaised).cost = true ∧
+    (errorHandlerEarlyRestore true [] (.noHandler false) costRaised).cost = true := by
+  decide
 
 /-- before the fix: a handler that completes a catch () and then raises an error loses the evaluation-cost bit, on both
     paths (caught: catch (spin ()) completes; uncaught: safe_apply does not cut its caller down to one tick) -/
